@@ -286,6 +286,19 @@ def panic_kinds(chk, col, bindir, tier, release=False, tag=""):
     col.flush("panic" + tag)
 
 
+def spawner_releases(chk, col, bindir, tier, release=False, tag=""):
+    """The closure waits for a signal its spawner gives right after spawn has returned (a closure may
+    wait for the spawner or a sibling): spawn must return while the closure runs on its new thread."""
+    script = ["set watchdog=2500", "baseline"]
+    for ty, fin, op in (("u8", "ret", "join"), ("vec", "ret", "drop"), ("u128", "panic", "join")):
+        script.append("one ty=%s fin=%s op=%s gate=2" % (ty, fin, op))
+    script.append("quiesce")
+    r = T.run_probe(chk, bindir, "spawner-releases" + tag, script, strace=False, timeout=60)
+    r.release = release
+    col.add(r, "free")
+    col.flush("release" + tag)
+
+
 WORK_KINDS = {1: "fork + wait, the child scribbles over its copy of the locals", 2: "spawns and joins a thread of its own",
               3: "512 KiB of stack frames", 4: "allocation heavy"}
 
